@@ -334,4 +334,174 @@ theorem startup_shape (cfg : Cfg) (fuel : Nat) : ∀ e ∈ (startup cfg fuel).lo
     · exact Or.inl ((top_core cfg fuel).1.shape e he)
     · exact Or.inr rfl
 
+theorem takeWhile_append_stop (p : Ev → Bool) (a : Ev) (l2 : List Ev) (ha : p a = false) :
+    ∀ (l1 : List Ev), (∀ e ∈ l1, p e = true) → (l1 ++ a :: l2).takeWhile p = l1 := by
+  intro l1
+  induction l1 with
+  | nil => intro _; simp [List.takeWhile, ha]
+  | cons b l1 ih =>
+    intro h
+    simp only [List.cons_append, List.takeWhile, h b (by simp)]
+    rw [ih (fun e he => h e (by simp [he]))]
+
+theorem shutdown_part_plain (st : St) (pick : List Name → Nat) :
+    ∀ e ∈ [Ev.shutdownbegin] ++ shutdownLog st.modules (threadsOf st) st.edges pick,
+      e ≠ Ev.ready ∧ isThread e = none := by
+  intro e he
+  simp only [shutdownLog, List.mem_append, List.mem_singleton, List.mem_map] at he
+  rcases he with rfl | ((⟨m, _, rfl⟩ | ⟨m, _, rfl⟩) | ⟨m, _, rfl⟩) <;> exact ⟨(by intro h; cases h), rfl⟩
+
+theorem init_part_plain (cfg : Cfg) (fuel : Nat) : ∀ e ∈ (startup cfg fuel).log, e ≠ Ev.ready ∧ isThread e = none := by
+  intro e he
+  rcases startup_shape cfg fuel e he with h | rfl
+  · cases e <;> simp [isInitEv] at h <;> exact ⟨(by intro h; cases h), rfl⟩
+  · exact ⟨(by intro h; cases h), rfl⟩
+
+theorem late_plain {e : Ev} (h : isLateEv e = true) : e ≠ Ev.ready ∧ isThread e = none := by
+  cases e <;> simp [isLateEv, isProEv] at h <;> exact ⟨(by intro h; cases h), rfl⟩
+
+/-- the ready clause for a whole run, any schedule -/
+theorem run_ready (cfg : Cfg) (fuel : Nat) (sched : List Act) (pick : List Name → Nat) :
+    ReadyAfterFirstRound (run cfg fuel sched pick).log := by
+  rw [(run_log cfg fuel sched pick).2]
+  have hA := init_part_plain cfg fuel
+  have hnotA : Ev.ready ∉ (startup cfg fuel).log := fun h => (hA _ h).1 rfl
+  split
+  · -- the node is started
+    have hS := shutdown_part_plain (startup cfg fuel) pick
+    have ws := (ws_finish (startup cfg fuel) sched).1
+    simp only [laterPart, List.append_assoc]
+    cases hr : (finish (waitRun (waitInit (startup cfg fuel)) sched)).ready with
+    | false =>
+      have hnW : Ev.ready ∉ waitPhase (startup cfg fuel) sched := ws.r0 hr
+      have hnot : Ev.ready ∉ (startup cfg fuel).log ++ (waitPhase (startup cfg fuel) sched ++
+          ([Ev.shutdownbegin] ++ shutdownLog (startup cfg fuel).modules (threadsOf (startup cfg fuel))
+            (startup cfg fuel).edges pick)) := by
+        intro h
+        rcases List.mem_append.mp h with h | h
+        · exact hnotA h
+        · rcases List.mem_append.mp h with h | h
+          · exact hnW h
+          · exact (hS _ h).1 rfl
+      refine ⟨by rw [List.count_eq_zero.mpr hnot]; omega, fun h => absurd h hnot⟩
+    | true =>
+      obtain ⟨_, pre, post, hl, hp, hpost, hthr⟩ := ws.r1 hr
+      have hW : waitPhase (startup cfg fuel) sched = pre ++ Ev.ready :: post := hl
+      rw [hW]
+      have hrest : ∀ e ∈ post ++ ([Ev.shutdownbegin] ++ shutdownLog (startup cfg fuel).modules
+          (threadsOf (startup cfg fuel)) (startup cfg fuel).edges pick), e ≠ Ev.ready ∧ isThread e = none := by
+        intro e he
+        rcases List.mem_append.mp he with he | he
+        · exact late_plain (hpost e he)
+        · exact hS e he
+      have hreassoc : (startup cfg fuel).log ++ ((pre ++ Ev.ready :: post) ++ ([Ev.shutdownbegin] ++
+          shutdownLog (startup cfg fuel).modules (threadsOf (startup cfg fuel)) (startup cfg fuel).edges pick)) =
+          ((startup cfg fuel).log ++ pre) ++ Ev.ready :: (post ++ ([Ev.shutdownbegin] ++
+          shutdownLog (startup cfg fuel).modules (threadsOf (startup cfg fuel)) (startup cfg fuel).edges pick)) := by
+        simp [List.append_assoc]
+      rw [hreassoc]
+      have hpre0 : ((startup cfg fuel).log ++ pre).count Ev.ready = 0 := by
+        rw [List.count_eq_zero]
+        intro h
+        rcases List.mem_append.mp h with h | h
+        · exact hnotA h
+        · exact hp h
+      have hrest0 : (post ++ ([Ev.shutdownbegin] ++ shutdownLog (startup cfg fuel).modules
+          (threadsOf (startup cfg fuel)) (startup cfg fuel).edges pick)).count Ev.ready = 0 := by
+        rw [List.count_eq_zero]
+        intro h
+        exact (hrest _ h).1 rfl
+      refine ⟨?_, ?_⟩
+      · rw [List.count_append, List.count_cons, hpre0, hrest0]
+        simp
+      · intro _
+        have htw := takeWhile_append_stop (· != Ev.ready) Ev.ready
+          (post ++ ([Ev.shutdownbegin] ++ shutdownLog (startup cfg fuel).modules
+            (threadsOf (startup cfg fuel)) (startup cfg fuel).edges pick)) (by simp)
+          ((startup cfg fuel).log ++ pre)
+          (by
+            intro e he
+            have : e ≠ Ev.ready := by
+              intro h; subst h
+              rcases List.mem_append.mp he with he | he
+              · exact hnotA he
+              · exact hp he
+            simpa using this)
+        simp only [htw]
+        intro t ht
+        obtain ⟨e, he, het⟩ := List.mem_filterMap.mp ht
+        have hthread : e = Ev.thread t := by
+          cases e <;> simp [isThread] at het
+          subst het; rfl
+        subst hthread
+        have hin : Ev.thread t ∈ pre := by
+          rcases List.mem_append.mp he with he | he
+          · rcases List.mem_append.mp he with he | he
+            · have := (hA _ he).2; simp [isThread] at this
+            · exact he
+          · rcases List.mem_cons.mp he with he | he
+            · cases he
+            · have := (hrest _ he).2; simp [isThread] at this
+        refine ⟨List.mem_append_right _ hin, ?_⟩
+        rcases hthr t hin with h | ⟨h1, h2⟩
+        · exact Or.inl (List.mem_append_right _ h)
+        · exact Or.inr ⟨List.mem_append_right _ h1, List.mem_append_right _ h2⟩
+  · exact ⟨by rw [List.count_eq_zero.mpr hnotA]; omega, fun h => absurd h hnotA⟩
+
+theorem pairwise_of_left {R : Ev → Ev → Prop} : ∀ (l : List Ev), (∀ a ∈ l, ∀ b, R a b) → l.Pairwise R
+  | [], _ => List.Pairwise.nil
+  | a :: l, h => List.Pairwise.cons (fun b _ => h a (by simp) b)
+      (pairwise_of_left l (fun x hx => h x (by simp [hx])))
+
+theorem shutdownOrder_prefix (mods : List Name) (edges : List (Name × Name)) (P S : List Ev)
+    (hP : ∀ e ∈ P, isShutdown e = false ∧ isStopPoll e = false) (h : ShutdownOrder mods edges S) :
+    ShutdownOrder mods edges (P ++ S) := by
+  have hns : ∀ m, Ev.shutdown m ∉ P := fun m hm => by have := (hP _ hm).1; simp [isShutdown] at this
+  have hnp : ∀ m, Ev.stopPoll m ∉ P := fun m hm => by have := (hP _ hm).2; simp [isStopPoll] at this
+  refine ⟨?_, ?_, ?_⟩
+  · unfold NeverAfter
+    rw [List.pairwise_append]
+    refine ⟨pairwise_of_left P (fun a ha b hh => ?_), h.1, fun a ha b _ hh => ?_⟩
+    · rw [(hP a ha).1] at hh; exact absurd hh.1 (by simp)
+    · rw [(hP a ha).1] at hh; exact absurd hh.1 (by simp)
+  · intro m hm
+    rw [List.count_append, List.count_append, List.count_eq_zero.mpr (hnp m), List.count_eq_zero.mpr (hns m)]
+    simpa using h.2.1 m hm
+  · intro e he hne
+    unfold NeverAfter
+    rw [List.pairwise_append]
+    have hk : ∀ a ∈ P, (a == Ev.shutdown e.2) = false := by
+      intro a ha
+      cases hb : (a == Ev.shutdown e.2) with
+      | false => rfl
+      | true => exact absurd (beq_iff_eq.mp hb ▸ ha) (hns e.2)
+    refine ⟨pairwise_of_left P (fun a ha b hh => ?_), h.2.2 e he hne, fun a ha b _ hh => ?_⟩
+    · have h1 : (a == Ev.shutdown e.2) = true := hh.1
+      rw [hk a ha] at h1; cases h1
+    · have h1 : (a == Ev.shutdown e.2) = true := hh.1
+      rw [hk a ha] at h1; cases h1
+
+theorem before_shutdown_plain (cfg : Cfg) (fuel : Nat) (sched : List Act) :
+    ∀ e ∈ (startup cfg fuel).log ++ (waitPhase (startup cfg fuel) sched ++ [Ev.shutdownbegin]),
+      isShutdown e = false ∧ isStopPoll e = false := by
+  intro e he
+  simp only [List.mem_append, List.mem_singleton] at he
+  rcases he with he | he | rfl
+  · rcases startup_shape cfg fuel e he with h | rfl
+    · cases e <;> simp [isInitEv] at h <;> exact ⟨rfl, rfl⟩
+    · exact ⟨rfl, rfl⟩
+  · rcases wait_shape _ sched e he with h | h | rfl | rfl | ⟨t, rfl⟩
+    · cases e <;> simp [isMainEv] at h <;> exact ⟨rfl, rfl⟩
+    · cases e <;> simp [isProEv] at h <;> exact ⟨rfl, rfl⟩
+    · exact ⟨rfl, rfl⟩
+    · exact ⟨rfl, rfl⟩
+    · exact ⟨rfl, rfl⟩
+  · exact ⟨rfl, rfl⟩
+
+theorem startup_modsNd (cfg : Cfg) (fuel : Nat) : (startup cfg fuel).modules.Nodup := by
+  rw [startup_eq]
+  split
+  · exact (top_core cfg fuel).1.modsNd
+  · exact (top_core cfg fuel).1.modsNd
+
 end Frappy.Proofs.LifecycleWait
